@@ -327,6 +327,15 @@ impl World {
                     Err(_) => outs.push([8, 0, 0]),
                 }
             }
+            15 => {
+                // dial / dial_address / add_known_address: forwarded to the manager handle; nothing
+                // of the service may change (the model treats the call as a plain poll)
+                let peer = self.peer(op[2]);
+                let svc = &mut self.svc;
+                if catch_unwind(AssertUnwindSafe(|| svc.api_call(op[3] as u8, peer, 30000 + (op[2] as u16 % 1000)))).is_err() {
+                    outs.push([8, 0, 0]);
+                }
+            }
             12 => match self.conns.get_mut(&op[2]) {
                 // shut down the write half of a held substream (tcp::Substream::poll_shutdown through
                 // the public AsyncWrite impl), to completion whatever its io result, and keep holding it
@@ -397,6 +406,7 @@ fn op_len(tag: u64) -> Option<usize> {
         4 => 2,
         5..=13 => 1,
         14 => 3,
+        15 => 2,
         _ => return None,
     })
 }
@@ -433,6 +443,9 @@ fn parse_case(c: &[u64]) -> Option<(bool, u64, u64, Vec<Vec<u64>>)> {
             return None;
         }
         if tag == 1 && !est.insert(op[3]) {
+            return None;
+        }
+        if tag == 15 && op[3] >= 3 {
             return None;
         }
         ops.push(op);
@@ -538,7 +551,11 @@ impl Gen {
                         None
                     },
                 94 => Some(vec![dt, 11, r.range(1, 5)]),
-                99 => Some(vec![dt, 14, p, r.chance(20) as u64, r.chance(20) as u64]),
+                99 => if r.chance(60) {
+                    Some(vec![dt, 14, p, r.chance(20) as u64, r.chance(20) as u64])
+                } else {
+                    Some(vec![dt, 15, p, r.below(3)])
+                },
                 95 | 98 =>
                     if !w.conns.is_empty() {
                         // prefer a connection on which a substream is held
